@@ -289,7 +289,8 @@ Proof.
     + assert (Hpres : forall r0 x, (r_id x =? r_id (fill_times now v)) = true ->
                 r_id x = r_id (fill_times now v) /\ r_id (oc_apply now r0 (fill_times now v) x) = r_id (fill_times now v)).
       { intros r0 x Hx. apply Z.eqb_eq in Hx. split; [exact Hx|]. rewrite oc_apply_id; congruence. }
-      destruct ru as [[|cols|]|]; cbn; repeat split; try lia; try (now exists 0);
+      destruct ru as [r0|]; [destruct (rule_fires r0 old)|]; cbn [res_tbl res_writes];
+        repeat split; try lia; try (now exists 0);
         try (rewrite length_upd_where; lia);
         exists (r_id (fill_times now v)); apply without_upd_where, Hpres.
     + cbn. repeat split; [|rewrite length_insert; lia]. eexists. apply without_insert.
